@@ -26,8 +26,8 @@ NOT proved (validated by the correspondence run and the `std::deque` oracle only
   `shiftFromTail_spec` in QProofs.lean), InsertItemAt, InsertItemsAt, the self-aliased multi-item forms,
   ReverseItemOrdering, Sort (as a stable sort), InsertItemAtSortedPosition, RemoveAllInstancesOf/First/Last,
   RemoveSortedDuplicateItems/RemoveDuplicateItems, SwapContents, Plunder, the copy branch of Normalize,
-  the no-argument AddTailAndGet()/AddHeadAndGet(); under the hypotheses that exclude the open findings
-  C16-D3 (SwapContents, copy-only owning type) and C16-D4 (self-prepend).
+  the no-argument AddTailAndGet()/AddHeadAndGet().  For SwapContents/Plunder, the self-aliased forms and
+  InsertItemsAt with a pointer into the own array the model follows the REPAIRED code (findings C16-D3..D6).
 -/
 
 namespace Muscle.Props.C16
